@@ -115,7 +115,7 @@ impl VehicleTypes {
 }
 
 // ================================================================ Network::new : overflow depot
-//@skeleton model/src/network.rs Network::new : recv sum 0; let max_formation_count; let overflow_capacity; closure map#3 = 310ef5cabde5f3e6
+//@skeleton model/src/network.rs Network::new : recv sum 0; let max_formation_count; let overflow_capacity; closure map#3 = a7357da58fea3ceb
 
 //@frag model/src/network.rs Network::new : recv sum 0 as frag_service_trip_counts
 //@params service_trips: &StdMap<VehicleTypeIdx, Vec<ServiceTrip>>
@@ -283,7 +283,7 @@ pub proof fn lemma_no_type_limit_means_total(d: Depot, vt: VehicleTypeIdx)
 }
 
 // ================================================================ create_network / create_depots : default depots
-//@skeleton model/src/json_serialisation/mod.rs fn create_network : let number_of_service_trips = 8685712f75a74310
+//@skeleton model/src/json_serialisation/mod.rs fn create_network : let number_of_service_trips = c9ba0a631daa82b0
 
 //@frag model/src/json_serialisation/mod.rs fn create_network : let number_of_service_trips as frag_number_of_service_trips
 //@params service_trips: &StdMap<VehicleTypeIdx, Vec<ModelServiceTrip>>
@@ -302,7 +302,7 @@ pub proof fn lemma_no_type_limit_means_total(d: Depot, vt: VehicleTypeIdx)
         broadcast use {lemma_sum_enum, lemma_enum_len_le_total};
 //@end
 
-//@skeleton model/src/json_serialisation/mod.rs fn create_depots : let allowed_vehicle_types; closure map#1; closure map#2 = c72a1479a1f51594
+//@skeleton model/src/json_serialisation/mod.rs fn create_depots : let allowed_vehicle_types; closure map#1; closure map#2 = 91a3f3272c8a8fee
 
 //@frag model/src/json_serialisation/mod.rs fn create_depots : let allowed_vehicle_types as frag_allowed_vehicle_types
 //@params vehicle_type_lookup: &StdMap<IdType, VehicleTypeIdx>
@@ -381,7 +381,7 @@ pub type DateTimeString = String;
     ensures r.id == id, r.location == location, r.start == start, r.end == end, r.track_count == track_count,
 //@end
 
-//@skeleton model/src/json_serialisation/mod.rs fn create_service_trips : let arrival_time; let distance; let seated; let maximal_formation_count; let service_trip = f753b2316ef8cfcb
+//@skeleton model/src/json_serialisation/mod.rs fn create_service_trips : let arrival_time; let distance; let seated; let maximal_formation_count; let service_trip = 3a85146577840d15
 
 //@frag model/src/json_serialisation/mod.rs fn create_service_trips : let arrival_time as frag_arrival_time
 //@params departure_time: DateTime, route_segment: &&RouteSegment
@@ -446,7 +446,7 @@ pub type DateTimeString = String;
     ensures r == dt_of_text(string@),
 //@end
 
-//@skeleton model/src/json_serialisation/mod.rs fn create_maintenance_slots : closure map#0 = 2eaa7bcfb1cf7075
+//@skeleton model/src/json_serialisation/mod.rs fn create_maintenance_slots : closure map#0 = b991fbd5b9d31d2d
 
 //@frag model/src/json_serialisation/mod.rs fn create_maintenance_slots : closure map#0 as frag_maintenance_slot
 //@params locations: &Locations, location_lookup: &StdMap<IdType, LocationIdx>, maintenance_slot: &MaintenanceSlots
